@@ -2,6 +2,7 @@ package iter
 
 import (
 	"fmt"
+	"math"
 	"testing"
 
 	"github.com/ipfs/go-cid"
@@ -145,7 +146,7 @@ func runC15(tb ev.TB, p c15Prog) ev.Result {
 	}
 	amount := -1
 	if p.Amount >= 0 {
-		cands := []int{0, 1, 2, len(rangeD) - 1, len(rangeD), len(rangeD) + 1, len(all) + 3, p.Amount % (len(all) + 4)}
+		cands := []int{0, 1, 2, len(rangeD) - 1, len(rangeD), len(rangeD) + 1, len(all) + 3, p.Amount % (len(all) + 4), p.Amount % (len(all) + 4), math.MaxInt32, math.MaxInt}
 		amount = cands[p.Amount%len(cands)]
 		if amount < 0 {
 			amount = 0
